@@ -275,7 +275,7 @@ def validate(desc):
       for c in list(mem["cuts"]) + [len(text)]:
         assert c in bounds and prev <= c and c - prev <= 112, (mem["cuts"], len(text))
         prev = c
-      assert len(mem["cuts"]) <= 0xEF
+      assert len(mem["cuts"]) <= 0xF0  # extension blocks 00h..EFh and the last block FFh
       if mem.get("junk"):
         blk, junk = mem["junk"]
         chunks = chunk_list(mem)
@@ -587,6 +587,9 @@ def files(draw, prof):
           cuts = cand
       mem["cuts"] = cuts
       mem["ud"] = draw(st.integers(0, 7)) == 0
+      if draw(st.integers(0, 11)) == 0:
+        # the longest chain there is: empty extension blocks first, so that the text ends in blocks EEh, EFh and FFh (seeded change C09-19)
+        mem["cuts"] = [0] * (0xF0 - len(cuts)) + cuts
     return mem, rows
 
   def pick_vp(rows, lo=1):
